@@ -9,6 +9,15 @@ CLAIMED = {
  "C01": ("property-based differential testing: rapid-generated typed sessions, compiled VM vs. an independent reference interpreter",
          "Generated well-typed, terminating sessions (closures, generators, recursion, every statement form in every position) run through parser+compiler+VM and through a definitional interpreter written from the Readme; final value, output and error class are compared per statement in both result modes. Exploration: holds on the cases counted in the evidence.",
          "trusted: harness/ref (reference semantics), the shared parser, rapid; domain flags skip (and count) programs whose meaning the description leaves open"),
+ "C02": ("property-based differential testing: generated generator/for-loop sessions with traces vs. the reference's coroutine semantics",
+         "Sessions over a generator library (map, filter, zip, chain, take, traced counters, recursive/conditional/nested generators, factories, value-position yield) with compositions to depth 4, zipped loops of unequal length, nested loops, loops in recursive functions and early returns; generators and bodies write a trace, so loop values, accumulators and the interleaving order are compared with the reference in both result modes.",
+         "trusted: harness/ref coroutine semantics (iter.Pull per iterator expression); frame-copy dependent programs are flagged and skipped"),
+ "C03": ("metamorphic property-based testing on the real VM: one call of a side-effect-free function in 15 dynamic placements, plus the reference value",
+         "A call of a generated or library pure function (closures created/called/returned, captured variables updated after capture and after deep calls, loops, generators) is evaluated at top level, twice in one expression, in loop bodies, in generators, under recursion depth 0..3000, from callers with 100-400 locals, after loops, failed statements and stack growth; all placements must give the same value, which must equal the reference's.",
+         "trusted: printed form as the observation; functions never do I/O by construction"),
+ "C04": ("property-based differential testing over a shared name pool + global probes: scoping sessions vs. the reference's own resolver, isolation invariant on the VM alone",
+         "Eight names serve as globals, parameters, locals, loop variables and captured variables at once; closures escape directly, in arrays, through an identity function and out of generators; after every statement all globals are probed: a statement that is not a top-level assignment must leave them unchanged (VM only) and every statement must agree with the reference.",
+         "trusted: harness/ref name resolution (lexical order, one level of capture); read-before-definition programs flagged and skipped"),
  "C05": ("property-based crash fuzzing: type-blind tree-generated and mutated programs through parser, compiler and VM under recover(); binary script leg; rapid.MakeFuzz leg in thorough",
          "Arbitrary parseable programs (every operator over every literal kind incl. extreme values, undefined names, wrong arities, control statements in every position, token-mutated typed sessions) must compile and end in a value or a documented runtime error in both result modes; any Go panic or undocumented error is a violation; a script of operator/operand products runs through the built binary to catch unrecoverable faults.",
          "trusted: the reference interpreter only as a resource screen (programs it cannot finish are skipped and counted); exit() never generated in process"),
@@ -18,9 +27,15 @@ CLAIMED = {
  "C07": ("property-based round-trip testing: random syntax trees printed by a grammar-derived printer in two layouts and parsed back",
          "Random trees of every parser-producible shape are printed with minimal parentheses/braces by the documented precedence table and again with redundant parentheses, braces, blanks, blank lines and comments; both texts must parse to exactly the tree.",
          "trusted: harness/gen/print.go as the documented grammar; trees limited to non-negative number literals and backslash-free strings"),
+ "C08": ("metamorphic property-based testing with fault injection: failing sessions vs. failure-free twin sessions on fresh VMs, plus reference and machine-state hooks",
+         "Failure carriers (17 runtime error classes x 16 dynamic positions incl. call depth to 300, loop bodies, suspended/nested generators, child contexts, zipped iterators; parse errors; bursts) are mixed with observers; the twin session drops the carrier or replaces the failing statement/generator by one that stops at the same point; every other statement must agree between the two sessions and with the reference, and the machine must be clean after each failure.",
+         "trusted: the syntactic twin construction (return 0 at top level unwinds without error keeping globals - confirmed by experiment)"),
  "C09": ("property-based testing with state hooks: machine residue after every generated statement in both result modes; metamorphic growth pairs (n vs n+600 iterations)",
          "After every statement of generated typed sessions (finished normally, through return, or with a runtime error) operand stack, frame stack, closure stack and child contexts must be empty and the main context at the end of the code; loop programs with bodies ending in every statement form are run with n and n+600 iterations and must reach the same stack high-water mark over all memories.",
          "trusted: the verif hooks (read-only accessors, growStack observer)"),
+ "C10": ("property-based testing with probes: variable-pool sessions (snapshot invariant + reference) and a state machine on the value API",
+         "Sessions over 3-8 array/string variables apply literals (constant prefix + computed elements, in loops and recursive functions), concatenation, slicing, nesting, calls, iteration and capture; after every statement all variables are probed and must render as before (except the assigned one) and as in the reference; on the API level Arith/Index/array building are checked against renderings taken at creation.",
+         "trusted: printed form as the observation; the reference copies on every slice/concatenation"),
  "C11": ("property-based testing of the value API: generated operand tuples vs. the reference value model, exhaustive kind pairings, algebraic laws",
          "Every exported operator of types/value is compared with an independent value model on boundary and random operands of every kind; all 7x7 kind pairings per operator are enumerated in every run; symmetry/negation/consistency laws and the slicing laws are checked directly on the implementation.",
          "trusted: harness/ref/values.go as the documented algebra; shifts pinned only for counts 0..63 on non-negative left operands"),
@@ -36,9 +51,18 @@ CLAIMED = {
  "C15": ("exhaustive boundary enumeration + property-based testing of the instruction codec and function values; generated programs around the 2^15/2^16 limits",
          "All 128 opcodes x 3 slots x 8 kinds x boundary addresses round-trip, addresses outside the signed 16 bit field are refused, three operands OR-ed together and patched decode independently, function values round-trip; programs with ~16k-70k constants, body statements, locals, parameters or session statements are refused at compile time (segments untouched) or give the closed-form value.",
          "trusted: the field layout read off bytecode.go; sizes explored to ~70000"),
+ "C16": ("property-based differential testing through the built binary: file mode, REPL over a pipe and -eval vs. transcripts computed by the reference statement by statement",
+         "Generated scripts with layout stress (braces, brackets, quotes, semicolons inside strings and comments, multi-line strings/arrays/blocks, blank and comment lines, missing final line break, exit(n)) must print in file mode the concatenated output and in REPL mode banner + output + value display per statement; self-contained statements must agree in all three modes incl. -eval.",
+         "trusted: the reference; REPL only over a pipe with printable text; scripts with runtime errors are left to C08"),
+ "C17": ("property-based testing of the built-ins: closed forms computed in Go + reference in process; read() sequences through the built binary",
+         "toa/write agreement, aton(toa(n)) == n for boundary/random ints and finite floats, fromto/elems/indices against closed forms, wrong types and arities; random line lists (arbitrary bytes, lengths across the 4096 byte buffer, optional unterminated last line) are piped to scripts calling read() k times directly, in loops, in generators and through functions.",
+         "trusted: whether read() keeps the line break is not part of the contract (both accepted); finite floats only"),
  "C18": ("model-based testing: operation histories on memory.Type against a slice model, plus generated wide-frame/deep-recursion programs with closed-form results",
          "Histories following the VM's calling protocol (push/pop/call/ret/set/capture/clone with and without recycled target/switch/destroy/reset, frame widths across every 128-slot boundary) are checked after every step against plain Go slices; programs with 100-400 locals and recursion to 24000 are checked against closed forms and the reference.",
          "trusted: the protocol read off vm.go; recursion explored to a stated depth, not to memory exhaustion"),
+ "C19": ("property-based differential testing of error reports: printed RUNTIME ERROR reports parsed and compared with the reference's report model",
+         "For every failing statement of fault-injected and typed sessions the printed report must name the class, mark exactly one instruction whose opcode belongs to the failing operation, list the operand values it saw, and list per coroutine (failing one up to main) the active calls innermost first with call-site names and current parameter values.",
+         "trusted: the report model in harness/ref; accumulator-form instructions compared on the explicit operand only; reports with ambiguous printed values (line breaks, ';', 'arg[') not compared"),
 }
 
 def sh(cmd):
